@@ -98,12 +98,7 @@ class C16(Check):
         calls = []
         multi = tr.sub.label.startswith("multi")
         if multi:
-            from .. import findings
             from ..realize import RealProcessor
-
-            if findings.sql_materialization_over_changing_upstream(rel):
-                tr.count("skipped_known_c07_shape")
-                return True
 
         def executor(r):
             if multi:
